@@ -29,8 +29,10 @@ def toy_state():
     })
     st = State(VariablesDAG.from_dict(nv), auto_fork_type=StateForkType.REF)
     st["x"] = torch.tensor(0.5)
-    st["t"] = torch.tensor([1.0, 2.0, 3.0])
-    st["u"] = torch.tensor([0.1, -0.2, 0.3])
+    # individual-level values carry the individual axis first and a component axis second, as in every shipped model
+    # (with a 1-D value the library's `sum_dim(but_dim=LVL_IND)` would reduce the individual axis away)
+    st["t"] = torch.tensor([[1.0], [2.0], [3.0]])
+    st["u"] = torch.tensor([[0.1], [-0.2], [0.3]])
     return st, {"ind_vars": ["u"], "n_ind": 3, "ind_reads": ["b", "d", "nll_regul_u_ind", "nll_regul_ind_sum_ind"]}
 
 
@@ -157,7 +159,7 @@ def standin_state_histories(tier, seed):
     return dict(evaluations=evals, distinct_nontrivial=len(distinct),
                 rule="each evaluation = one read of a variable of the real State compared bit-for-bit with its definition "
                      "evaluated from scratch; distinct = (graph, variable, position in history)",
-                samples=samples[:3], violations=violations[:5],
+                samples=samples[:3], violations=violations[:60],
                 bound=dict(space="seeded random histories over real model graphs + one toy graph", graphs=graphs,
                            histories_per_graph=n_hist, history_length=length, exhaustive=False, seed=seed))
 
